@@ -778,6 +778,15 @@ pub fn sess_pure(sid: u64, fam: &str, seed: u64, o: &Opts) -> Sess {
         s.call(op, "C", "A", 'm', 'm', false); // unrelated calls in between
         calls.push((op.to_string(), "C".to_string(), "A".to_string()));
     }
+    // ... among them calls that PANIC inside the library (the recorded finding N1: an index panic in contour nesting on
+    // ULP-sliver triangles, frame 2000; the harness catches the unwind and carries on ON THE SAME THREAD, as a caller
+    // with catch_unwind would): whatever a call leaves behind when it is interrupted must not reach the next one
+    let np: IMp = vec![IPoly { ext: vec![(2, 7), (3, 2), (2, 5), (2, 7)], holes: vec![] }];
+    let nq: IMp = vec![IPoly { ext: vec![(3, 5), (0, 5), (3, 6), (3, 5)], holes: vec![] }];
+    s.def("Np", &np, run::ULP_FRAME, BASE);
+    s.def("Nq", &nq, run::ULP_FRAME, BASE);
+    s.call("diff", "Np", "Nq", 'm', 'm', false);
+    s.call("xor", "Np", "Nq", 'm', 'm', false);
     for (op, _) in run::OPS {
         s.call(op, "A", "B", 'm', 'm', false); // repeated
     }
